@@ -136,7 +136,7 @@ def coordinates(an, rep):
     for b in sorted(core.bodies.values(), key=lambda b: b.key):
         if not b.file.endswith(("deserializer/mod.rs", "adt/deserializer.rs")):
             continue
-        ex = mir.Expr(b)
+        ex = mir.Expr(b, core)
         dim = Dim(b)
         for bb in sorted(mir.reachable(b)):
             blk = b.blocks[bb]
@@ -232,19 +232,12 @@ def _owner(body, pl):
 
 
 # ------------------------------------------------------------------------------------------------ R4
-PEEK_ALLOWED = {
-    "<DeserializationContext as BinaryInput>::read_u8", "<DeserializationContext as BinaryInput>::read_bytes",
-    "<DeserializationContext as BinaryInput>::skip", "DeserializationContext::new", "DeserializationContext::push_region",
-    "DeserializationContext::pop_region", "ResolvedInputRegion::unresolve", "<ResolvedInputRegion as Clone>::clone",
-    "<ResolvedInputRegion as Debug>::fmt", "<InputRegion as Clone>::clone", "<InputRegion as Debug>::fmt",
-    "InputRegion::new", "InputRegion::empty",
-}
-
-
 def no_peeking(an, rep):
     R = rep.rule("R4", "only the three primitive methods and the region bookkeeping read the end of the current region / the "
                        "length of the input: no decoder's behaviour may depend on how much input remains")
     core = an.core()
+    from ..layers import primitive_unit
+    unit = primitive_unit(core)
     n = 0
     for b in sorted(core.bodies.values(), key=lambda b: b.key):
         ex = None
@@ -277,7 +270,7 @@ def no_peeking(an, rep):
                         hit = hit or ("context." + fld)
             if hit:
                 n += 1
-                R.check(b.key in PEEK_ALLOWED, b.key, "reads " + hit, "reads the region bounds / raw input outside the "
+                R.check(b.defn in unit, b.key, "reads " + hit, "reads the region bounds / raw input outside the "
                         "primitive layer (decoding could depend on the remaining length)", mir.loc(b, bb))
     R.floor("accesses to region bounds / raw input", n, 10)
     return R
